@@ -1,6 +1,7 @@
 package main
 
 import (
+	"encoding/json"
 	"fmt"
 	"go/ast"
 	"go/parser"
@@ -174,7 +175,37 @@ func cmdSelftest(flags map[string]string) int {
 }
 
 func cmdReplay(path string, flags map[string]string) int {
-	fmt.Println("replay: not implemented yet")
-	return 3
+	b, err := os.ReadFile(path)
+	if err != nil {
+		fmt.Println("replay:", err)
+		return 3
+	}
+	var fx engine.Fixture
+	if err := json.Unmarshal(b, &fx); err != nil {
+		fmt.Println("replay: bad fixture:", err)
+		return 3
+	}
+	rr, err := engine.NativeReplay(repoDir(), filepath.Join(verifDir(), "harness"), []*engine.Fixture{&fx}, flags["race"] != "", 5*time.Minute)
+	if err != nil || len(rr) != 1 {
+		fmt.Println("replay: native run failed:", err)
+		return 3
+	}
+	r := rr[0]
+	fmt.Printf("replay %s harness=%s job=%s\n  params=%v\n  holes=%v\n", path, fx.Harness, fx.JobID, fx.Params, fx.Holes)
+	for k, v := range r.Out {
+		fmt.Printf("  native %s = %s\n", k, v)
+	}
+	switch {
+	case r.Crashed:
+		fmt.Printf("  the process crashed: %s\n", r.CrashMsg)
+		return 1
+	case r.Panicked:
+		fmt.Printf("  panic: %s\n", r.PanicMsg)
+		return 1
+	case len(r.Failed) > 0:
+		fmt.Printf("  failed assertions: %v\n", r.Failed)
+		return 1
+	}
+	fmt.Println("  no assertion failed on the current tree")
+	return 0
 }
-
